@@ -43,6 +43,8 @@ TEALOP = Rec("name", "TealOp")
 def mkop(OpS, name, *slots, expr=None):
     s = Sym(f"{name} {' '.join(map(str, slots))}".strip(), attrs={"op": OpS.attrs[name], "$type": TEALOP, "args": list(slots), "expr": expr})
     s.methods["getSlots"] = lambda: [x for x in slots if isinstance(x, Sym) and x.name.startswith("slot")]
+    # TealOp equality is structural: same op, same arguments (slots by identity)
+    s.methods["__eq__"] = lambda other: isinstance(other, Sym) and other.attrs.get("$type") is TEALOP and other.attrs.get("op") is s.attrs["op"] and len(other.attrs.get("args", ())) == len(slots) and all(a is b or (not isinstance(a, Sym) and a == b) for a, b in zip(other.attrs["args"], slots))
     s.methods["getOp"] = lambda: OpS.attrs[name]
     s.methods["getSubroutines"] = lambda: []
     return s
@@ -395,6 +397,11 @@ def run(ctx):
     from rules import c02 as _c02, c10 as _c10
 
     _c02.r02_2_convention(ctx)  # frame_pointers on/off: both conventions bind the same parameters and hand back the same value (shared with C02)
+    _c02.r02_3_spill(ctx)  # routine-local scratch variables survive re-entrant calls under either convention (shared with C02)
+    from rules import c01 as _c01, c04 as _c04
+
+    _c01.r01_14_compile_subroutine(ctx)  # the convention-specific deferred code (output load / frame_bury 0) stands before every retsub (shared with C01)
+    _c04.r04_4_immediates(ctx)  # version-dependent choice between immediate and stack forms (shared with C04)
     _c10.r10_1_assignment(ctx)  # with the slot optimiser off nothing cancels a temporary that was given a user-reserved index (shared with C10)
     return (
         "Abstract evaluation of the slot optimiser's own code (skip-set construction, dependency scan, cancellation + deletion) on abstract block graphs and on all short "
